@@ -25,8 +25,7 @@ Print Assumptions C12_model_try_from_total.
 
 (* tie: the functions this property's model describes by hand (not by translation) still have the pinned text; an
    edit to one of them breaks this obligation and sends the check searching for a failing input *)
-From VL Require Import ShapeFacts.
 From VLG Require Import ShapeGen.
 Theorem C12_modelled_code_is_the_pinned_text : shapes_for_C12 = true.
-Proof. exact shapes_C12_ok. Qed.
+Proof. vm_compute. reflexivity. Qed.
 Print Assumptions C12_modelled_code_is_the_pinned_text.
